@@ -44,11 +44,11 @@ def configs(tier):
         cfgs.append({"name": f"{'+'.join(shapes)}-V{V}-conv{conv}-search{search}" + (f"-extras{max_extras}" if extras else ""), "shapes": shapes, "V": V,
                      "conv": conv, "search": search, "kind": "step", "extras": extras, "max_extras": max_extras})
 
-    def tpl(name, conv=0, search=1, second=False, node_order=None, label_offset=0):
+    def tpl(name, conv=0, search=1, second=False, node_order=None, label_offset=0, extra_isolated=0):
         cfgs.append({"name": f"template-{name}-conv{conv}-search{search}" + ("-second-rewire" if second else "") + (f"-nodes-{node_order}" if node_order else "")
-                     + (f"-labels+{label_offset}" if label_offset else ""),
+                     + (f"-labels+{label_offset}" if label_offset else "") + (f"-isolated{extra_isolated}" if extra_isolated else ""),
                      "template": name, "conv": conv, "search": search, "kind": "template", "second": second, "node_order": node_order,
-                     "label_offset": label_offset})
+                     "label_offset": label_offset, "extra_isolated": extra_isolated})
 
     add(["edge", "edge"], 4)
     add(["edge", "edge"], 3, search=2)
@@ -59,6 +59,8 @@ def configs(tier):
     tpl("chain2", second=True)  # rewire() called twice on one object: the second result is checked
     tpl("chain2", node_order="desc")  # vertices inserted in descending order
     tpl("star2", node_order="desc")
+    tpl("chain2", extra_isolated=2)  # two vertices of joint degree zero
+    tpl("c4pair")  # 4-cycles (corners of a non-complete motif) sharing a vertex
     tpl("chain2", label_offset=1000)  # vertex labels 1000.. (not small-int objects)
     tpl("star2", search=2, label_offset=1000)
     cfgs.append({"name": "defaults", "kind": "defaults", "shapes": ["tri", "edge"], "V": 4})
@@ -71,7 +73,6 @@ def configs(tier):
         add(["tri", "tri", "edge"], 5)
         add(["edge", "edge", "edge"], 5, search=2)
         tpl("tri3fan")
-        tpl("c4pair")
         tpl("mixed", search=2)
         tpl("chain2", conv=1)
         add(["edge", "edge"], 4, conv=1)
